@@ -38,6 +38,139 @@ def model_check():
     return res, states, trans
 
 
+# ---- generated statements (on top of the hand-written corpus) ---------------------------------------------------------
+SUBJ = ["/u<joe>", "/u<mary>", "/u<peter>", "/c<mini>", "/u<zoe>", "/u<nobody>"]
+PRED = ['"parent_of"@[]', '"bought"@[2016-02-01T00:00:00-08:00]', '"height_cm"@[]', '"is_a"@[]', '"knows"@[]',
+        '"bought"@[2015-01-01T00:00:00-08:00,2017-01-01T00:00:00-08:00]', '"bought"@[,]']
+OBJ = ["/u<mary>", "/u<peter>", "/t<car>", "/c<mini>", '"174"^^type:int64', "/u<john>"]
+
+
+def gen_statements(rnd, n):
+    """seeded statements over the vocabulary of the corpus' data: every clause shape (bound / unbound subject,
+    predicate, object; anchor binding; aliases), 1-3 clauses joined through shared variables, OPTIONAL, FROM 1-3
+    graphs, GROUP BY / ORDER BY / HAVING / LIMIT / global bounds / FILTER, CONSTRUCT / DECONSTRUCT with 1-2 templates,
+    ';' and 1-3 targets, INSERT / DELETE with 1-3 targets. Candidates the parser or planner refuses are dropped by
+    `faultdrv calls -skip-bad`."""
+    out = []
+
+    def clause(i, vs):
+        s = rnd.choice(SUBJ) if rnd.random() < 0.3 else rnd.choice(vs["n"])
+        x = rnd.random()
+        if x < 0.5:
+            p = rnd.choice(PRED)
+        elif x < 0.65:
+            p = '"bought"@[%s]' % rnd.choice(vs["t"])
+        else:
+            p = rnd.choice(vs["p"])
+        o = rnd.choice(OBJ) if rnd.random() < 0.3 else rnd.choice(vs["n"] + vs["o"])
+        names = [w for w in (s, o) if w.startswith("?")]
+        if p.startswith("?"):
+            names.append(p)
+        if "@[?" in p:
+            names.append(p[p.index("@[") + 2:-1])
+        if rnd.random() < 0.15 and s.startswith("?"):
+            s += " ID ?si%d" % i
+            names.append("?si%d" % i)
+        if rnd.random() < 0.15 and s.startswith("/"):
+            s += " AS ?sa%d" % i
+            names.append("?sa%d" % i)
+        if rnd.random() < 0.15 and p.startswith("?"):
+            p += " AT ?pt%d" % i
+            names.append("?pt%d" % i)
+        if rnd.random() < 0.12 and o.startswith("?"):
+            o += " TYPE ?oy%d" % i
+            names.append("?oy%d" % i)
+        return "%s %s %s" % (s, p, o), names
+
+    def where(k, opt_ok=True):
+        vs = {"n": ["?x", "?y", "?z"], "p": ["?p", "?q"], "o": ["?v"], "t": ["?t", "?u"]}
+        cls, names = [], []
+        for i in range(k):
+            c, ns = clause(i, vs)
+            if i > 0 and opt_ok and rnd.random() < 0.25:
+                c = "optional {%s}" % c
+            cls.append(c)
+            names += [x for x in ns if x not in names]
+        if rnd.random() < 0.12 and any(x in ("?p", "?q") for x in names):
+            cls.append("FILTER %s(%s)" % (rnd.choice(["latest", "isTemporal", "isImmutable"]), rnd.choice([x for x in names if x in ("?p", "?q")])))
+        return " . ".join(cls), names
+
+    def frm():
+        return ", ".join(rnd.sample(["?a", "?b", "?c"], rnd.choice([1, 1, 2, 3])))
+
+    for _ in range(n):
+        x = rnd.random()
+        if x < 0.6:
+            w, names = where(rnd.choice([1, 1, 2, 2, 3]))
+            if not names:
+                continue
+            sel = rnd.sample(names, rnd.randint(1, len(names)))
+            txt = "select %s from %s where {%s}" % (", ".join(sel), frm(), w)
+            y = rnd.random()
+            if y < 0.2 and len(sel) >= 2:
+                k, a = sel[0], sel[1]
+                fn = rnd.choice(["count(%s)", "count(distinct %s)", "sum(%s)"]) % a
+                txt = "select %s, %s as ?n from %s where {%s} group by %s" % (k, fn, frm(), w, k)
+                if rnd.random() < 0.4:
+                    txt += " order by ?n %s" % rnd.choice(["asc", "desc"])
+                if rnd.random() < 0.3:
+                    txt += ' having ?n > "1"^^type:int64'
+            else:
+                if rnd.random() < 0.3:
+                    txt += " order by " + ", ".join("%s %s" % (b, rnd.choice(["asc", "desc"])) for b in rnd.sample(sel, min(len(sel), rnd.choice([1, 2]))))
+                if rnd.random() < 0.15:
+                    txt += " having %s = %s" % (sel[0], rnd.choice(OBJ))
+                if rnd.random() < 0.15:
+                    txt += rnd.choice([" before 2016-02-15T00:00:00-08:00", " after 2016-01-15T00:00:00-08:00",
+                                       " between 2016-01-15T00:00:00-08:00, 2017-01-01T00:00:00-08:00"])
+                if rnd.random() < 0.25:
+                    txt += ' limit "%d"^^type:int64' % rnd.choice([0, 1, 2, 5])
+            out.append(txt + ";")
+        elif x < 0.85:
+            w, names = where(rnd.choice([1, 1, 2]), opt_ok=False)
+            nn = [v for v in names if v in ("?x", "?y", "?z")]
+            if not nn:
+                continue
+            tpls = []
+            for _t in range(rnd.choice([1, 1, 2])):
+                s = rnd.choice(nn)
+                p = rnd.choice(['"derived"@[]', '"knows"@[]'] + [v for v in names if v in ("?p", "?q")] + ['"seen"@[%s]' % v for v in names if v in ("?t", "?u")])
+                o = rnd.choice(nn + ["/u<mary>", '"1"^^type:int64'] + [v for v in names if v == "?v"])
+                t = "%s %s %s" % (s, p, o)
+                if rnd.random() < 0.3:
+                    t += '; "since"@[] /y<2016>'
+                tpls.append(t)
+            tgt = ", ".join(rnd.sample(["?a", "?b", "?c"], rnd.choice([1, 1, 2, 3])))
+            if rnd.random() < 0.65:
+                out.append("construct {%s} into %s from %s where {%s};" % (" . ".join(tpls), tgt, frm(), w))
+            else:
+                out.append("deconstruct {%s} in %s from %s where {%s};" % (" . ".join(t.split(";")[0] for t in tpls), tgt, frm(), w))
+        else:
+            tgt = ", ".join(rnd.sample(["?a", "?b", "?c"], rnd.choice([1, 2, 3])))
+            data = " . ".join("%s %s %s" % (rnd.choice(SUBJ), rnd.choice(PRED[:5]), rnd.choice(OBJ)) for _d in range(rnd.choice([1, 2, 4])))
+            out.append(("insert data into %s {%s};" if rnd.random() < 0.5 else "delete data from %s {%s};") % (tgt, data))
+    return list(dict.fromkeys(out))
+
+
+def build_corpus(d, rnd, tier):
+    """the hand-written corpus plus the generated statements that the real parser and planner accept"""
+    with open(CORPUS) as fh:
+        corpus = json.load(fh)
+    nbase = len(corpus["statements"])
+    cand = gen_statements(rnd, 60 if tier == "quick" else 1500)
+    probe = dict(corpus, statements=cand)
+    pp, po = os.path.join(d, "candidates.json"), os.path.join(d, "candidates.calls")
+    with open(pp, "w") as fh:
+        json.dump(probe, fh)
+    rtcommon.run_driver("faultdrv", ["calls", "-corpus", pp, "-out", po, "-skip-bad"], timeout=1800)
+    good = sorted({r["stmt"] for r in vlib.read_ndjson(po) if r["cfg"] == "direct"})
+    corpus["statements"] += [cand[i - 1] for i in good]
+    path = os.path.join(d, "corpus.json")
+    with open(path, "w") as fh:
+        json.dump(corpus, fh)
+    return path, corpus, nbase, len(cand)
+
+
 def faultu(recs):
     items = []
     for r in recs:
@@ -57,14 +190,13 @@ def check(prop):
     vlib.build_harness(["faultdrv"])
     d = vlib.scratch("fault-")
     rnd = rtcommon.rng(20)
-    with open(CORPUS) as fh:
-        corpus = json.load(fh)
+    cpath, corpus, nbase, ncand = build_corpus(d, rnd, tier)
 
     with cf.ThreadPoolExecutor(max_workers=2) as ex:
         f_mc = ex.submit(model_check)
         # fault-free runs: the driver calls each statement makes (direct and through the memoizing store)
         calls_path = os.path.join(d, "calls.ndjson")
-        rtcommon.run_driver("faultdrv", ["calls", "-corpus", CORPUS, "-out", calls_path], timeout=900)
+        rtcommon.run_driver("faultdrv", ["calls", "-corpus", cpath, "-out", calls_path], timeout=1800)
         recs = vlib.read_ndjson(calls_path)
         if tier == "quick":
             # every statement directly; through the memoizer a seeded third of the corpus
@@ -97,7 +229,7 @@ def check(prop):
             fh.write(json.dumps(p) + "\n")
     tr = os.path.join(d, "fault.ndjson")
     stp = os.path.join(d, "fault.stats")
-    rtcommon.run_driver("faultdrv", ["run", "-corpus", CORPUS, "-plans", plans_path, "-out", tr, "-stats", stp], timeout=3000)
+    rtcommon.run_driver("faultdrv", ["run", "-corpus", cpath, "-plans", plans_path, "-out", tr, "-stats", stp], timeout=6000)
     st = json.load(open(stp))
     res = rtcommon.validate_trace("FaultTrace", "FaultTrace.cfg", {}, tr, ('{"ev":"Start"',), prop_tags=("REJECT", "OPEN"),
                                   workers=4, max_events=150000, heap="3g")
@@ -139,7 +271,8 @@ def check(prop):
                 "method, mode, min(j,2)) among those",
         "model": "ExecPipeline.tla: 8 execution shapes x channel sizes {0,1,2} x every fault of the shape",
         "model_configs": mc,
-        "corpus_statements": len(corpus["statements"]), "statement_configurations": len(recs),
+        "corpus_statements": len(corpus["statements"]), "corpus_hand_written": nbase, "corpus_generated_accepted": len(corpus["statements"]) - nbase,
+        "corpus_generated_candidates": ncand, "statement_configurations": len(recs),
         "fault_plans_enumerated": expected, "faults_injected": nhit, "fault_free_runs": len(recs),
         "open_table_with_error": len(res["tagged"].get("OPEN", [])),
         "plan_types": {k[6:]: n for k, n in st.items() if k.startswith("ptype:")},
